@@ -153,7 +153,10 @@ public:
 
   QUILL_ATTRIBUTE_HOT void commit_read() noexcept
   {
-    if (static_cast<integer_type>(_reader_pos - _atomic_reader_pos.load(std::memory_order_relaxed)) >= _bytes_per_batch)
+    // Also publish when everything known to be written has been consumed; otherwise up to one batch
+    // of already consumed bytes stays unavailable to the producer while the queue is empty
+    if ((static_cast<integer_type>(_reader_pos - _atomic_reader_pos.load(std::memory_order_relaxed)) >= _bytes_per_batch) ||
+        (_reader_pos == _writer_pos_cache))
     {
       _atomic_reader_pos.store(_reader_pos, std::memory_order_release);
 
